@@ -6,6 +6,9 @@
 //                 2 = C: every thread owns CodeHolder + emitter/compiler; bytes must equal the single-threaded reference
 //                 3 = cold start (exactly 3; every other value decodes modulo 3 as before): first use of the library by N
 //                     threads at once in a fresh process, see "Cold start" below for its cfg/ops
+//                 4 = statistics snapshots (exactly 4): worker threads allocate/release spans of a few fixed sizes while observer
+//                     threads call statistics() / query() in a tight loop; every returned object must be ONE state of the
+//                     allocator, see "Statistics snapshots" below for its cfg/ops
 //   nthreads    : 2..16 (clamped)
 //   option_bits : 1 dual mapping, 2 multiple pools, 4 fill unused, 8 immediate release, 16 large pages, 32 custom fill pattern
 //   final_mode  : order in which every thread releases its remaining spans in the concurrent release phase (0 FIFO, 1 LIFO, 2 mixed)
@@ -14,7 +17,9 @@
 //
 // Oracle: (1) ThreadSanitizer (tsan flavour; a report ends the process with exit code 97 -> driver reports key "crash");
 //         (2) per-thread ownership model (C09's span invariants per thread, union of the models at a barrier, residue at the end);
-//         (3) mode C: bytes identical to the single-threaded reference computed before the threads start.
+//         (3) mode C: bytes identical to the single-threaded reference computed before the threads start;
+//         (4) statistics snapshots: every Statistics object returned while other threads allocate/release must be one of the
+//             states reachable by the generated worker scripts (cross-field invariants; no race needs to exist for it to fail).
 //
 // Known single-threaded JitAllocator defects (known_findings.txt, property C09) are kept out of the way: reset() is never
 // called concurrently, the empty-block retention policy is not asserted, and no block can ever become exactly full
@@ -49,10 +54,11 @@ enum : uint32_t { O_DUAL = 1, O_MULTI = 2, O_FILL = 4, O_IMMEDIATE = 8, O_LARGE 
 
 static const uint32_t kBlockSel[] = {0, 65536, 131072, 262144};
 static const uint32_t kGranSel[] = {0, 64, 128, 256};
-static const char* const kKindNames[3][K_COUNT] = {
+static const char* const kKindNames[4][K_COUNT] = {
   {"op_alloc", "op_release", "op_shrink", "op_query", "op_write", "op_statistics", "op_yield"},
   {"op_rt_add", "op_rt_release", "op_rt_call", "op_rt_query", "op_rt_call", "op_rt_statistics", "op_yield"},
-  {"op_codegen", "op_codegen", "op_codegen", "op_codegen", "op_codegen", "op_codegen", "op_yield"}};
+  {"op_codegen", "op_codegen", "op_codegen", "op_codegen", "op_codegen", "op_codegen", "op_yield"},
+  {"op_snap_alloc", "op_snap_release", "op_snap_release_group", "op_snap_query", "op_snap_alloc", "op_snap_worker_statistics", "op_yield"}};
 
 constexpr size_t kMaxLivePerThread = 24;
 constexpr size_t kMaxBytesPerThread = size_t(3) << 19;   // 1.5 MB
@@ -124,6 +130,10 @@ struct Shared {
   Barrier b_start, b_audit, b_release, b_done;
   std::atomic<int> inside{0};
   std::atomic<bool> stop{false};
+  // statistics-snapshot cases, counters only (relaxed, no synchronisation): workers still inside their script loop and
+  // alloc()/release() calls completed so far
+  std::atomic<int> workers_running{0};
+  std::atomic<uint64_t> mutations{0};
   bool is_known(const std::string& k) const { return opts && !opts->known_match(k).empty(); }
 };
 
@@ -2024,6 +2034,590 @@ static void run_mode_cold(const vh::Case& c, vh::Ctx& ctx) {
 
 } // namespace
 
+//@@MODE_SNAP@@
+// ====================================================================================================================
+// Statistics snapshots (cfg[0] == 4): statistics() and query() return ONE state of the allocator.
+//
+// Every public JitAllocator function is documented as thread-safe, and statistics() returns its five numbers in one object:
+// a caller may relate them to each other (the allocator's own unit test and benchmark do). That is only meaningful when the
+// object describes one moment, i.e. when statistics() is atomic with respect to alloc()/release() like every other entry point.
+// The race detector cannot see a violation: a statistics() that takes the lock once per pool or per field has no unsynchronised
+// access. So the oracle is a value oracle:
+//   * W worker threads execute generated scripts (`rounds` times) that allocate and release spans of a FEW FIXED SIZES
+//     (single pool: one size of k granules, or two sizes; kUseMultiplePools: sizes that fall into pools 0/1/2), in matched
+//     groups (alloc a, alloc b, ..., release all) or freely; a worker holds at most L spans.
+//   * The script of a worker is a pure function of the Case, so the sequence of (live spans, live bytes) pairs it walks through is
+//     known before any thread starts. alloc()/release() are atomic, hence at every moment every worker is in ONE of its pairs and
+//     an atomic statistics() can only return (allocation_count, used_size) = pinned + sum over workers of one pair each: the
+//     Minkowski sum of the per-worker pair sets (computed exactly, a bit matrix). With one span size that is the line
+//     used_size == allocation_count * k * granularity; with sizes 64/256 in groups it is nB <= nA, used == 64 nA + 256 nB ...
+//   * Whatever a block adds to used_size (the initial padding granule unless kDisableInitialPadding), its reserved bytes and its
+//     overhead are not assumed: they are MEASURED single-threaded on a twin allocator with the same CreateParams in the same
+//     process (first span of each pool: delta of block_count / reserved_size / overhead_size / used_size), and the formulas are
+//     then validated single-threaded (every worker's script once, alone, statistics() after every step must equal the model
+//     exactly, key snap-model-single-threaded) before the threads start.
+//   * Observer threads (1..4) call statistics() in a tight loop (generated count) from the same start barrier and check every
+//     object: no block <=> nothing reserved / no overhead / nothing used / nothing allocated; reserved_size >= used_size and
+//     >= block_count * (measured size of a first block); kImmediateRelease: block_count <= allocation_count; pools holding a
+//     pinned span have a block; (block_count, reserved_size, overhead_size) is the sum of the measured values of a set S of
+//     pools; and (allocation_count, (used_size - padding of S) / granularity) is a reachable pair. Workers check their own
+//     statistics() calls the same way (plus: allocation_count >= own live spans).
+//   * query(): the main thread pins up to three spans for the whole case; observers query them while blocks are created and
+//     deleted around them and must get exactly the pinned rx/rw/size/block; workers query their own live spans.
+// The numbers of iterations are generated; overlap is measured with relaxed counters (snapshots taken while workers were inside
+// their scripts / while an alloc() or release() completed during the very call), never assumed, and decides nothing.
+//
+// Case: cfg = [4, workers, option_bits, block_size_sel, granularity_sel, observers, rounds, observer_iterations, size_table, pinned]
+//   option_bits as in modes A/B (large pages are not used: block sizes must be reproducible) plus 64 = kDisableInitialPadding
+//   workers 1..12, observers 1..4, rounds 1..2000, observer_iterations 1..40000, pinned: bit i = a span of size class i is pinned
+// ops = [worker, kind, a]   kind 0/4 alloc(size class a), 1 release(a-th live span), 2 release every live span (a&1: LIFO),
+//                            3 query(a-th live span), 5 statistics() by the worker itself, 6 yield
+// ====================================================================================================================
+namespace {
+
+enum : int { M_SNAP = 4, KN_SNAP = 3 };
+enum : uint32_t { O_NOPAD = 64 };
+constexpr uint32_t kSnapMaxWorkers = 12, kSnapMaxObservers = 4, kSnapMaxLive = 6, kSnapMaxRounds = 2000, kSnapMaxIters = 40000;
+constexpr unsigned kSnapMaxPools = 3;
+
+// span sizes in units of the allocator granularity (0 ends the list)
+static const uint8_t kSnapSingle[8][3] = {{1, 0, 0}, {2, 0, 0}, {3, 0, 0}, {5, 0, 0}, {1, 4, 0}, {2, 3, 0}, {1, 0, 0}, {4, 0, 0}};
+static const uint8_t kSnapMulti[8][3] = {{1, 2, 4}, {1, 4, 0}, {3, 2, 4}, {1, 6, 8}, {1, 2, 0}, {2, 4, 0}, {3, 6, 12}, {1, 4, 0}};
+
+static bool is_snap_case(const vh::Case& c) { return !c.cfg.empty() && c.cfg[0] == M_SNAP; }
+
+// Set of (count, units) pairs as a bit matrix.
+struct Reach {
+  size_t maxc = 0, maxu = 0, words = 1;
+  std::vector<uint64_t> bits;
+  void init(size_t mc, size_t mu) { maxc = mc; maxu = mu; words = mu / 64 + 1; bits.assign((mc + 1) * words, 0); }
+  bool get(size_t c, size_t n) const { return c <= maxc && n <= maxu && ((bits[c * words + n / 64] >> (n % 64)) & 1); }
+  void set(size_t c, size_t n) { bits[c * words + n / 64] |= uint64_t(1) << (n % 64); }
+  size_t size() const { size_t n = 0; for (size_t c = 0; c <= maxc; c++) for (size_t k = 0; k <= maxu; k++) n += get(c, k); return n; }
+  // this := { a + p : a in this, p in pairs }
+  void add(const std::vector<std::pair<uint32_t, uint32_t>>& pairs) {
+    std::vector<uint64_t> next(bits.size(), 0);
+    for (size_t c = 0; c <= maxc; c++) {
+      const uint64_t* row = &bits[c * words];
+      bool any = false;
+      for (size_t i = 0; i < words && !any; i++) any = row[i] != 0;
+      if (!any) continue;
+      for (const auto& p : pairs) {
+        if (c + p.first > maxc) continue;
+        uint64_t* dst = &next[(c + p.first) * words];
+        size_t ws = p.second / 64, bs = p.second % 64;
+        for (size_t i = words; i-- > ws;) {
+          uint64_t v = row[i - ws] << bs;
+          if (bs && i - ws > 0) v |= row[i - ws - 1] >> (64 - bs);
+          dst[i] |= v;
+        }
+      }
+    }
+    bits.swap(next);
+  }
+};
+
+struct SnapClass { uint32_t units; int pool; };
+
+struct SnapEnv {
+  uint32_t G = 64, B0 = 65536;
+  bool multi = false, immediate = false, nopad = false, dual = false;
+  unsigned npools = 1, used_pools = 0;          // used_pools: bit p = some size class falls into pool p
+  std::vector<SnapClass> classes;
+  std::string sizes_text;
+  uint32_t W = 1, OBS = 1, L = 1, rounds = 1, iters = 1, qevery = 1;
+  // measured single-threaded on the twin allocator: what the first block of pool p adds
+  size_t R1[kSnapMaxPools] = {}, O1[kSnapMaxPools] = {}, pad[kSnapMaxPools] = {};
+  size_t Rmin = 0, pad_min = 0, pad_max = 0;
+  Reach reach;
+  std::vector<Span> pinned;
+};
+
+// The script interpreter shared by the model and by the worker threads: the same decisions from the same integers.
+template<class Sink>
+static void snap_interpret(const SnapEnv& e, const std::vector<const vh::Op*>& script, uint32_t rounds, Sink& sink) {
+  size_t nlive = 0;
+  for (uint32_t r = 0; r < rounds; r++) {
+    for (const vh::Op* opp : script) {
+      if (sink.s_stopped()) return;
+      const vh::Op& op = *opp;
+      int kind = int(u(arg(op, 1)) % K_COUNT);
+      sink.s_kind(kind);
+      switch (kind) {
+        case K_ALLOC: case K_WRITE:
+          if (nlive >= e.L) { sink.s_skip(); break; }
+          sink.s_alloc(unsigned(u(arg(op, 2)) % e.classes.size()));
+          nlive++;
+          break;
+        case K_RELEASE:
+          if (!nlive) { sink.s_skip(); break; }
+          sink.s_release(size_t(u(arg(op, 2)) % nlive));
+          nlive--;
+          break;
+        case K_SHRINK:
+          while (nlive) {
+            if (sink.s_stopped()) return;
+            sink.s_release((arg(op, 2) & 1) ? nlive - 1 : 0);
+            nlive--;
+          }
+          break;
+        case K_QUERY:
+          if (!nlive) { sink.s_skip(); break; }
+          sink.s_query(size_t(u(arg(op, 2)) % nlive));
+          break;
+        case K_STATS: sink.s_stats(); break;
+        default: sink.s_yield(1 + unsigned(u(arg(op, 2)) % 3)); break;
+      }
+    }
+  }
+}
+
+// The model of one worker: the (live spans, live units) pairs it walks through.
+struct SnapModel {
+  const SnapEnv& e;
+  std::vector<uint32_t> live;                  // units of every live span, in allocation order
+  uint32_t count = 0, units = 0, maxc = 0, maxu = 0;
+  unsigned pool_mask = 0;
+  uint64_t allocs = 0, releases = 0;
+  std::set<std::pair<uint32_t, uint32_t>> pairs;
+  explicit SnapModel(const SnapEnv& e_) : e(e_) { pairs.insert({0, 0}); }
+  bool s_stopped() const { return false; }
+  void s_kind(int) {}
+  void s_skip() {}
+  void note() { maxc = std::max(maxc, count); maxu = std::max(maxu, units); pairs.insert({count, units}); }
+  void s_alloc(unsigned c) { live.push_back(e.classes[c].units); count++; units += e.classes[c].units; pool_mask |= 1u << e.classes[c].pool; allocs++; note(); }
+  void s_release(size_t idx) { count--; units -= live[idx]; live.erase(live.begin() + ptrdiff_t(idx)); releases++; note(); }
+  void s_query(size_t) {}
+  void s_stats() {}
+  void s_yield(unsigned) {}
+};
+
+struct SnapThread : ThreadBase {
+  JitAllocator* A = nullptr;
+  const SnapEnv* env = nullptr;
+  bool observer = false;
+  bool validate = false;                        // single-threaded reference run on the twin allocator
+  unsigned pin_mask = 0;                        // pools that hold a pinned span of the allocator this thread works on
+  size_t pin_count = 0, pin_units = 0;
+  std::vector<Span> spans;                      // worker: live spans in allocation order
+  size_t live_units = 0;
+  uint64_t snaps = 0, snaps_workers_running = 0, snaps_during_mutation = 0, snaps_count_changed = 0, snaps_exact_structure = 0, snaps_other_structure = 0;
+  uint64_t snaps_nonempty = 0, snaps_blocks_2plus = 0, snaps_no_block = 0, pinned_queries = 0;
+
+  std::string describe(const Stats& st, const char* where) const {
+    char b[320];
+    snprintf(b, sizeof b, "%s: statistics() returned {allocation_count %zu, used_size %zu, block_count %zu, reserved_size %zu, overhead_size %zu} (granularity %u, %s, %s%s, spans of %s bytes, %u workers, %zu pinned spans)",
+             where, st.allocation_count(), st.used_size(), st.block_count(), st.reserved_size(), st.overhead_size(), env->G,
+             env->multi ? "multiple pools" : "one pool", env->nopad ? "no initial padding" : "initial padding", env->immediate ? ", immediate release" : "",
+             env->sizes_text.c_str(), env->W, pin_count);
+    return b;
+  }
+
+  // exact == nullptr: any state the workers can be in; otherwise the one (spans, units) state the allocator is in (nobody else runs)
+  void check_snapshot(const Stats& st, const char* where, const std::pair<size_t, size_t>* exact, size_t own_count) {
+    const SnapEnv& e = *env;
+    size_t Bc = st.block_count(), cnt = st.allocation_count(), used = st.used_size(), res = st.reserved_size(), ovh = st.overhead_size();
+    snaps++;
+    if (cnt) snaps_nonempty++;
+    if (Bc >= 2) snaps_blocks_2plus++;
+    if (!Bc) snaps_no_block++;
+    TCK((Bc == 0) == (res == 0) && (Bc == 0) == (ovh == 0) && (Bc != 0 || (used == 0 && cnt == 0)), "stat-snapshot-blocks",
+        "%s: not one state of the allocator: no block <=> nothing reserved, no overhead, nothing used, nothing allocated", describe(st, where).c_str());
+    TCK(res >= used && res >= Bc * e.Rmin, "stat-snapshot-reserved",
+        "%s: not one state of the allocator: reserved_size must cover used_size and %zu blocks of at least %zu bytes", describe(st, where).c_str(), Bc, e.Rmin);
+    TCK(cnt >= own_count + pin_count && (exact || cnt <= e.reach.maxc), "stat-allocation-count",
+        "%s: allocation_count outside [%zu, %zu] (%zu spans of the calling thread + %zu pinned; all workers together never hold more)", describe(st, where).c_str(), own_count + pin_count, e.reach.maxc, own_count, pin_count);
+    TCK(size_t(__builtin_popcount(pin_mask)) <= Bc, "stat-snapshot-blocks", "%s: fewer blocks than pools that hold a pinned span (%d)", describe(st, where).c_str(), __builtin_popcount(pin_mask));
+    if (e.immediate)
+      TCK(Bc <= cnt, "stat-snapshot-blocks", "%s: kImmediateRelease: an empty block is released inside release(), so one state never has more blocks than live spans", describe(st, where).c_str());
+    // which pools have their (first) block, and does the rest describe a state the workers can be in?
+    bool structure = false, ok = false;
+    for (unsigned S = 0; S < (1u << e.npools) && !ok; S++) {
+      if ((S & ~e.used_pools) || size_t(__builtin_popcount(S)) != Bc || (S & pin_mask) != pin_mask) continue;
+      size_t R = 0, O = 0, P = 0;
+      for (unsigned p = 0; p < e.npools; p++) if (S & (1u << p)) { R += e.R1[p]; O += e.O1[p]; P += e.pad[p]; }
+      if (R != res || O != ovh) continue;
+      structure = true;
+      if (used < P || (used - P) % e.G) continue;
+      size_t n = (used - P) / e.G;
+      ok = exact ? (cnt == exact->first && n == exact->second) : e.reach.get(cnt, n);
+    }
+    if (structure) snaps_exact_structure++;
+    else {
+      // a second block in some pool (never expected: a worker holds at most L small spans) - only bounds on the padding are known
+      snaps_other_structure++;
+      for (size_t P = Bc * e.pad_min; P <= Bc * e.pad_max && !ok; P += e.G) {
+        if (used < P || (used - P) % e.G) continue;
+        size_t n = (used - P) / e.G;
+        ok = exact ? (cnt == exact->first && n == exact->second) : e.reach.get(cnt, n);
+      }
+    }
+    if (exact)
+      TCK(ok, "stat-snapshot-count-vs-used", "%s: expected allocation_count %zu and used_size %zu + the padding of the blocks", describe(st, where).c_str(), exact->first, exact->second * e.G);
+    else
+      TCK(ok, "stat-snapshot-count-vs-used", "%s: no state the worker threads can be in explains allocation_count and used_size together (%zu reachable (spans, bytes) states) - the object is not an atomic snapshot of the allocator",
+          describe(st, where).c_str(), e.reach.size());
+  }
+
+  void check_query(const Span& want, const char* where) {
+    Span out;
+    Error e;
+    { Inside in(*this); e = A->query(Out(out), want.rx()); }
+    TCK(e == Error::kOk, "query-live-failed", "%s: query(start of a live span) error %u", where, unsigned(e));
+    if (e != Error::kOk) return;
+    TCK(out.rx() == want.rx() && out.rw() == want.rw() && out._block == want._block, "query-wrong-pointer", "%s: query(start of a live span) returned other pointers (rx delta %td, rw delta %td, %s block)", where,
+        (const uint8_t*)out.rx() - (const uint8_t*)want.rx(), (const uint8_t*)out.rw() - (const uint8_t*)want.rw(), out._block == want._block ? "same" : "another");
+    TCK(out.size() == want.size(), "query-wrong-size", "%s: query(start of a live span) size %zu, the span has %zu bytes", where, out.size(), want.size());
+  }
+
+  void check_exact(const char* where) {
+    std::pair<size_t, size_t> ex{spans.size() + pin_count, live_units + pin_units};
+    Stats st = A->statistics();
+    check_snapshot(st, where, &ex, spans.size());
+  }
+
+  // ---- sink of snap_interpret: the real thing ----
+  bool s_stopped() const { return sh->stop.load(std::memory_order_relaxed); }
+  void s_kind(int kind) { kinds[kind]++; }
+  void s_skip() { cls("snap_op_skipped_cap_or_empty"); }
+  void s_alloc(unsigned c) {
+    const SnapEnv& e = *env;
+    size_t size = size_t(e.classes[c].units) * e.G;
+    Span s;
+    Error err;
+    { Inside in(*this); err = A->alloc(Out(s), size); }
+    if (err != Error::kOk) failv("alloc-failed", "alloc(%zu) returned error %u (this thread: %zu live spans)", size, unsigned(err), spans.size());
+    sh->mutations.fetch_add(1, std::memory_order_relaxed);
+    TCK(s.rx() && s.rw() && s._block, "null-span", "alloc(%zu): rx %p rw %p block %p", size, s.rx(), s.rw(), s._block);
+    TCK(s.size() == size, "size-not-granular", "alloc(%zu): span size %zu", size, s.size());
+    TCK(uintptr_t(s.rx()) % e.G == 0 && uintptr_t(s.rw()) % e.G == 0, "misaligned", "alloc(%zu): rx %p rw %p not aligned to %u", size, s.rx(), s.rw(), e.G);
+    TCK((s.rx() != s.rw()) == e.dual, "views-not-distinct", "alloc(%zu): rx %p rw %p with%s dual mapping", size, s.rx(), s.rw(), e.dual ? "" : "out");
+    for (const Span& o : spans)
+      TCK(uintptr_t(s.rx()) + size <= uintptr_t(o.rx()) || uintptr_t(o.rx()) + o.size() <= uintptr_t(s.rx()), "overlap", "alloc(%zu): new span overlaps another live span of this thread", size);
+    spans.push_back(s);
+    live_units += e.classes[c].units;
+    if (validate) check_exact("single-threaded reference run, after alloc");
+  }
+  void s_release(size_t idx) {
+    Span s = spans[idx];
+    Error err;
+    { Inside in(*this); err = A->release(s.rx()); }
+    if (err != Error::kOk) failv("release-failed", "release(live span of %zu bytes) error %u", s.size(), unsigned(err));
+    sh->mutations.fetch_add(1, std::memory_order_relaxed);
+    live_units -= s.size() / env->G;
+    spans.erase(spans.begin() + ptrdiff_t(idx));
+    if (validate) check_exact("single-threaded reference run, after release");
+  }
+  void s_query(size_t idx) { check_query(spans[idx], "worker, own span"); cls("snap_worker_query_own_span"); }
+  void s_stats() {
+    Stats st;
+    { Inside in(*this); st = A->statistics(); }
+    if (validate) { std::pair<size_t, size_t> ex{spans.size() + pin_count, live_units + pin_units}; check_snapshot(st, "single-threaded reference run", &ex, spans.size()); }
+    else check_snapshot(st, "worker", nullptr, spans.size());
+  }
+  void s_yield(unsigned n) { for (unsigned i = 0; i < n; i++) sched_yield(); }
+
+  void release_all() {
+    while (!spans.empty() && !s_stopped()) s_release(spans.size() - 1);
+  }
+
+  void fold_counters() {
+    if (snaps) cls("stats_snapshots_checked", snaps);
+    if (snaps_workers_running) cls("stats_snapshots_while_workers_inside_their_scripts", snaps_workers_running);
+    if (snaps_during_mutation) cls("stats_snapshots_during_concurrent_alloc", snaps_during_mutation);
+    if (snaps_count_changed) cls("stats_snapshots_allocation_count_differs_from_previous", snaps_count_changed);
+    if (snaps_exact_structure) cls("stats_snapshots_block_structure_identified", snaps_exact_structure);
+    if (snaps_other_structure) cls("stats_snapshots_block_structure_other", snaps_other_structure);
+    if (snaps_nonempty) cls("stats_snapshots_with_live_spans", snaps_nonempty);
+    if (snaps_blocks_2plus) cls("stats_snapshots_two_or_more_blocks", snaps_blocks_2plus);
+    if (snaps_no_block) cls("stats_snapshots_no_block", snaps_no_block);
+    if (pinned_queries) cls("stats_observer_queries_of_pinned_spans", pinned_queries);
+  }
+
+  void observer_loop() {
+    const SnapEnv& e = *env;
+    size_t prev = SIZE_MAX;
+    for (uint32_t i = 0; i < e.iters; i++) {
+      if (s_stopped()) break;
+      int r0 = sh->workers_running.load(std::memory_order_relaxed);
+      uint64_t m0 = sh->mutations.load(std::memory_order_relaxed);
+      Stats st;
+      { Inside in(*this); st = A->statistics(); }
+      uint64_t m1 = sh->mutations.load(std::memory_order_relaxed);
+      int r1 = sh->workers_running.load(std::memory_order_relaxed);
+      check_snapshot(st, "observer", nullptr, 0);
+      if (r0 > 0 && r1 > 0) snaps_workers_running++;
+      if (m0 != m1) snaps_during_mutation++;
+      if (prev != SIZE_MAX && prev != st.allocation_count()) snaps_count_changed++;
+      prev = st.allocation_count();
+      if (!e.pinned.empty() && i % e.qevery == 0) {
+        check_query(e.pinned[(i / e.qevery + id) % e.pinned.size()], "observer, pinned span");
+        pinned_queries++;
+      }
+    }
+  }
+
+  void main() {
+    stamps.reserve(observer ? size_t(env->iters) * 2 + 4 : size_t(env->rounds) * script.size() + 8);
+    sh->b_start.wait();
+    t_start = now_ns();
+    try {
+      if (observer) observer_loop();
+      else snap_interpret(*env, script, env->rounds, *this);
+    } catch (const ThreadFail& f) {
+      failed = true; fkey = f.key; fmsg = f.msg;
+      sh->stop.store(true, std::memory_order_relaxed);
+    }
+    if (!observer) sh->workers_running.fetch_sub(1, std::memory_order_relaxed);
+    t_end = now_ns();
+    sh->b_audit.wait();
+    sh->b_release.wait();
+    if (!observer && !failed) {
+      try { release_all(); }
+      catch (const ThreadFail& f) { failed = true; fkey = f.key; fmsg = f.msg; sh->stop.store(true, std::memory_order_relaxed); }
+    }
+    sh->b_done.wait();
+  }
+};
+
+static void run_mode_snap(const vh::Case& c, vh::Ctx& ctx) {
+  auto cf = [&](size_t i) -> uint64_t { return i < c.cfg.size() ? uint64_t(c.cfg[i]) : 0; };
+  auto clampi = [&](size_t i, int64_t lo, int64_t hi) -> uint32_t { int64_t v = i < c.cfg.size() ? c.cfg[i] : lo; return uint32_t(std::min(hi, std::max(lo, v))); };
+  Setup su = make_setup(c, ctx);
+  su.opt &= ~uint32_t(O_LARGE);
+  su.params.options &= ~JitAllocatorOptions::kUseLargePages;
+  SnapEnv env;
+  env.nopad = (cf(2) & O_NOPAD) != 0;
+  if (env.nopad) su.params.options |= JitAllocatorOptions::kDisableInitialPadding;
+  env.W = clampi(1, 1, kSnapMaxWorkers);
+  env.OBS = clampi(5, 1, kSnapMaxObservers);
+  env.rounds = clampi(6, 1, kSnapMaxRounds);
+  env.iters = clampi(7, 1, kSnapMaxIters);
+
+  JitAllocator A(&su.params), T(&su.params);
+  env.G = A.granularity();
+  env.B0 = A.block_size();
+  env.multi = A.has_option(JitAllocatorOptions::kUseMultiplePools);
+  env.immediate = A.has_option(JitAllocatorOptions::kImmediateRelease);
+  env.dual = A.has_option(JitAllocatorOptions::kUseDualMapping);
+  env.npools = env.multi ? kSnapMaxPools : 1;
+  {
+    const uint8_t* tab = env.multi ? kSnapMulti[cf(8) % 8] : kSnapSingle[cf(8) % 8];
+    for (int i = 0; i < 3 && tab[i]; i++) {
+      int pool = !env.multi ? 0 : tab[i] % 4 == 0 ? 2 : tab[i] % 2 == 0 ? 1 : 0;
+      env.classes.push_back({tab[i], pool});
+      env.used_pools |= 1u << pool;
+      env.sizes_text += (i ? "/" : "") + std::to_string(size_t(tab[i]) * env.G);
+    }
+  }
+  unsigned pin_sel = unsigned(cf(9) & 7);
+  size_t npinned = 0;
+  for (size_t i = 0; i < env.classes.size(); i++) if (pin_sel & (1u << i)) npinned++;
+  // A worker holds at most L spans: chosen so that the spans of all threads always fit into the first block of every pool,
+  // whatever the fragmentation (a request for m granules can only fail when every free run is shorter than m).
+  {
+    size_t L = kSnapMaxLive;
+    for (unsigned p = 0; p < env.npools; p++) {
+      if (!(env.used_pools & (1u << p))) continue;
+      size_t gran = size_t(env.G) << p, m = 1;
+      for (const SnapClass& k : env.classes) if (k.pool == int(p)) m = std::max(m, size_t(k.units) * env.G / gran);
+      size_t capacity = 2 * size_t(env.B0) / gran - 1;
+      size_t spans = capacity / (2 * m - 1);
+      spans = spans > npinned + 2 ? spans - npinned - 2 : 1;
+      L = std::min(L, std::max<size_t>(1, spans / env.W));
+    }
+    env.L = uint32_t(L);
+  }
+  env.qevery = 1 + uint32_t(cf(9) >> 3) % 7;
+
+  AllocEnv aenv = make_env(A, su, env.W + env.OBS);
+  record_classes(ctx, su, aenv);
+  ctx.cls("mode_S_statistics_snapshots");
+  ctx.cls("stats_snapshot_cases");
+  ctx.cls(env.nopad ? "cfg_no_initial_padding" : "cfg_initial_padding");
+  ctx.cls(std::string(env.multi ? "stats_case_multiple_pools_sizes_" : "stats_case_one_pool_sizes_") + (env.classes.size() == 1 ? "one" : env.classes.size() == 2 ? "two" : "three"));
+  { char b[48]; snprintf(b, sizeof b, "stats_case_workers_%s", env.W >= 7 ? "7_12" : env.W >= 4 ? "4_6" : env.W >= 2 ? "2_3" : "1"); ctx.cls(b);
+    snprintf(b, sizeof b, "stats_case_observers_%u", env.OBS); ctx.cls(b); }
+
+  Shared sh;
+  sh.opts = ctx.opts;
+  uint32_t n = env.W + env.OBS;
+  sh.nthreads = n;
+  sh.b_start.n = sh.b_audit.n = sh.b_release.n = sh.b_done.n = n + 1;
+  sh.workers_running.store(int(env.W), std::memory_order_relaxed);
+  std::vector<std::unique_ptr<SnapThread>> ths;
+  for (uint32_t i = 0; i < n; i++) {
+    ths.emplace_back(new SnapThread());
+    SnapThread& t = *ths.back();
+    t.sh = &sh; t.id = i; t.A = &A; t.env = &env; t.observer = i >= env.W;
+  }
+  for (const vh::Op& op : c.ops) {
+    if (op.size() < 2) continue;
+    ths[size_t(u(op[0]) % env.W)]->script.push_back(&op);
+  }
+
+  // ---- single-threaded measurement on the twin allocator: what does the first block of a pool add? ----
+  Shared shv;
+  shv.opts = ctx.opts;
+  shv.nthreads = 1;
+  SnapThread val;
+  val.sh = &shv; val.A = &T; val.env = &env; val.validate = true;
+  {
+    Stats e0 = T.statistics();
+    VH_CHECK(ctx, e0.block_count() == 0 && e0.allocation_count() == 0 && e0.used_size() == 0 && e0.reserved_size() == 0 && e0.overhead_size() == 0, "stat-empty-residue",
+             "fresh allocator: blocks %zu allocations %zu used %zu reserved %zu overhead %zu", e0.block_count(), e0.allocation_count(), e0.used_size(), e0.reserved_size(), e0.overhead_size());
+    std::vector<Span> tmp;
+    env.Rmin = SIZE_MAX; env.pad_min = SIZE_MAX; env.pad_max = 0;
+    for (unsigned p = 0; p < env.npools; p++) {
+      if (!(env.used_pools & (1u << p))) continue;
+      size_t size = 0;
+      for (const SnapClass& k : env.classes) if (k.pool == int(p)) size = size_t(k.units) * env.G;
+      Stats s0 = T.statistics();
+      Span s;
+      Error e = T.alloc(Out(s), size);
+      VH_CHECK(ctx, e == Error::kOk && s.size() == size, "alloc-failed", "single-threaded measurement: alloc(%zu) error %u", size, unsigned(e));
+      tmp.push_back(s);
+      Stats s1 = T.statistics();
+      size_t gran = size_t(env.G) << p;
+      VH_CHECK(ctx, s1.block_count() == s0.block_count() + 1 && s1.allocation_count() == s0.allocation_count() + 1 && s1.reserved_size() > s0.reserved_size() && s1.overhead_size() > s0.overhead_size() &&
+               s1.used_size() >= s0.used_size() + size && s1.used_size() - s0.used_size() - size == (env.nopad ? 0 : gran), "snap-model-single-threaded",
+               "single-threaded measurement, first span (%zu bytes) of pool %u: blocks %zu -> %zu, allocations %zu -> %zu, used %zu -> %zu (expected + span + %zu padding), reserved %zu -> %zu, overhead %zu -> %zu",
+               size, p, s0.block_count(), s1.block_count(), s0.allocation_count(), s1.allocation_count(), s0.used_size(), s1.used_size(), env.nopad ? size_t(0) : gran, s0.reserved_size(), s1.reserved_size(), s0.overhead_size(), s1.overhead_size());
+      env.R1[p] = s1.reserved_size() - s0.reserved_size();
+      env.O1[p] = s1.overhead_size() - s0.overhead_size();
+      env.pad[p] = s1.used_size() - s0.used_size() - size;
+      env.Rmin = std::min(env.Rmin, env.R1[p]);
+      env.pad_min = std::min(env.pad_min, env.pad[p]);
+      env.pad_max = std::max(env.pad_max, env.pad[p]);
+    }
+    for (const Span& s : tmp) {
+      Error e = T.release(s.rx());
+      VH_CHECK(ctx, e == Error::kOk, "release-failed", "single-threaded measurement: release error %u", unsigned(e));
+    }
+  }
+
+  // ---- the model: per-worker pair sets and their Minkowski sum ----
+  std::vector<std::unique_ptr<SnapModel>> models;
+  size_t maxc = 0, maxu = 0, pair_total = 0;
+  uint64_t model_allocs = 0;
+  unsigned workers_with_allocs = 0;
+  for (uint32_t i = 0; i < env.W; i++) {
+    models.emplace_back(new SnapModel(env));
+    snap_interpret(env, ths[i]->script, env.rounds, *models.back());
+    maxc += models.back()->maxc; maxu += models.back()->maxu;
+    pair_total += models.back()->pairs.size();
+    model_allocs += models.back()->allocs;
+    if (models.back()->allocs) workers_with_allocs++;
+  }
+
+  // pinned spans (main thread, live for the whole case)
+  unsigned pin_mask = 0;
+  size_t pin_units = 0;
+  for (size_t i = 0; i < env.classes.size(); i++) {
+    if (!(pin_sel & (1u << i))) continue;
+    Span s;
+    size_t size = size_t(env.classes[i].units) * env.G;
+    Error e = A.alloc(Out(s), size);
+    VH_CHECK(ctx, e == Error::kOk && s.size() == size, "alloc-failed", "alloc(%zu) of a pinned span: error %u", size, unsigned(e));
+    env.pinned.push_back(s);
+    pin_mask |= 1u << env.classes[i].pool;
+    pin_units += env.classes[i].units;
+  }
+  for (auto& t : ths) { t->pin_mask = pin_mask; t->pin_count = env.pinned.size(); t->pin_units = pin_units; }
+  maxc += env.pinned.size(); maxu += pin_units;
+  env.reach.init(maxc, maxu);
+  env.reach.set(env.pinned.size(), pin_units);
+  for (auto& m : models) env.reach.add(std::vector<std::pair<uint32_t, uint32_t>>(m->pairs.begin(), m->pairs.end()));
+  size_t reach_states = env.reach.size();
+  ctx.cls(reach_states <= 1 ? "stats_case_reachable_states_1" : reach_states <= 16 ? "stats_case_reachable_states_2_16" : reach_states <= 256 ? "stats_case_reachable_states_17_256" : "stats_case_reachable_states_257_or_more");
+  ctx.cls(env.pinned.empty() ? "stats_case_no_pinned_span" : "stats_case_pinned_spans");
+
+  // ---- the formulas hold single-threaded: every worker's script once, alone, on the twin ----
+  try {
+    uint32_t keep_rounds = env.rounds;
+    for (uint32_t i = 0; i < env.W; i++) {
+      val.script = ths[i]->script;
+      snap_interpret(env, val.script, std::min<uint32_t>(keep_rounds, 2), val);
+      val.release_all();
+    }
+    val.check_exact("single-threaded reference run, everything released");
+  } catch (const ThreadFail& f) {
+    for (auto& k : val.known_seen) ctx.known_excluded(k);
+    for (const Span& s : env.pinned) (void)A.release(s.rx());
+    ctx.fail_unless_known("snap-model-single-threaded", "[" + f.key + "] " + f.msg);
+    return;
+  }
+  for (auto& k : val.known_seen) ctx.known_excluded(k);
+  ctx.cls("stats_single_threaded_reference_snapshots", val.snaps);
+
+  // ---- concurrent phase ----
+  std::vector<std::thread> threads;
+  for (uint32_t i = 0; i < n; i++) threads.emplace_back([&ths, i] { ths[i]->main(); });
+  sh.b_start.wait();
+  sh.b_audit.wait_watchdog("audit");
+
+  vh::Failure audit_fail;
+  bool audit_failed = false;
+  size_t total_spans = 0, total_units = 0;
+  if (!sh.stop.load()) {
+    SnapThread aud;
+    aud.sh = &shv; aud.A = &A; aud.env = &env; aud.pin_mask = pin_mask; aud.pin_count = env.pinned.size(); aud.pin_units = pin_units;
+    try {
+      for (uint32_t i = 0; i < env.W; i++) {
+        total_spans += ths[i]->spans.size(); total_units += ths[i]->live_units;
+        VH_CHECK(ctx, ths[i]->spans.size() == models[i]->count && ths[i]->live_units == models[i]->units, "harness-internal", "worker %u ended with %zu spans / %zu units, its model with %u / %u", i, ths[i]->spans.size(), ths[i]->live_units, models[i]->count, models[i]->units);
+      }
+      std::pair<size_t, size_t> ex{total_spans + env.pinned.size(), total_units + pin_units};
+      Stats st = A.statistics();
+      VH_CHECK(ctx, st.allocation_count() == ex.first, "stat-allocation-count", "audit: allocation_count() %zu, the threads hold %zu live spans (+ %zu pinned)", st.allocation_count(), total_spans, env.pinned.size());
+      try {
+        aud.check_snapshot(st, "audit (all threads at a barrier)", &ex, 0);
+        for (uint32_t i = 0; i < env.W; i++) for (const Span& s : ths[i]->spans) aud.check_query(s, "audit");
+        for (const Span& s : env.pinned) aud.check_query(s, "audit, pinned span");
+      } catch (const ThreadFail& f) { ctx.fail_unless_known(f.key, f.msg); }
+    } catch (const vh::Failure& f) { audit_fail = f; audit_failed = true; sh.stop.store(true); }
+    for (auto& k : aud.known_seen) ctx.known_excluded(k);
+  }
+  sh.b_release.wait();
+  sh.b_done.wait_watchdog("end");
+  for (auto& th : threads) th.join();
+  for (const Span& s : env.pinned) (void)A.release(s.rx());
+  if (audit_failed) throw audit_fail;
+
+  uint64_t snaps = 0, during = 0, running = 0;
+  for (auto& t : ths) {
+    if (t->observer) { snaps += t->snaps; during += t->snaps_during_mutation; running += t->snaps_workers_running; t->cls("stats_observer_snapshots", t->snaps); }
+    else if (t->snaps) t->cls("stats_worker_snapshots", t->snaps);
+    t->fold_counters();
+  }
+  if (during) ctx.cls("stats_cases_with_snapshot_during_concurrent_alloc");
+  if (running) ctx.cls("stats_cases_with_snapshot_while_workers_inside_their_scripts");
+  if (workers_with_allocs >= 2) ctx.cls("stats_cases_two_or_more_allocating_workers");
+
+  std::string sample;
+  if (ctx.want_sample()) {
+    char b[400];
+    snprintf(b, sizeof b, "statistics snapshots, %u workers x %u rounds (at most %u spans each of %s bytes, %llu alloc calls) + %u observers x %u statistics(), opt=0x%x%s B=%u G=%u, %zu pinned, %zu reachable (spans, bytes) states; "
+             "%llu observer snapshots, %llu while workers ran, %llu overlapped a completed alloc/release", env.W, env.rounds, env.L, env.sizes_text.c_str(), (unsigned long long)model_allocs, env.OBS, env.iters,
+             su.opt, env.nopad ? "+nopad" : "", env.B0, env.G, env.pinned.size(), reach_states, (unsigned long long)snaps, (unsigned long long)running, (unsigned long long)during);
+    sample = b;
+  }
+  report_threads(ctx, KN_SNAP, ths, ctx.want_sample() ? &sample : nullptr);
+  (void)pair_total;
+
+  // ---- after everything was released ----
+  {
+    SnapThread fin;
+    fin.sh = &shv; fin.A = &A; fin.env = &env;
+    try { fin.check_exact("after every thread released everything"); }
+    catch (const ThreadFail& f) { ctx.fail_unless_known(f.key == "stat-snapshot-count-vs-used" || f.key == "stat-allocation-count" ? "final-residue" : f.key, f.msg); }
+    for (auto& k : fin.known_seen) ctx.known_excluded(k);
+  }
+  if (!sample.empty()) ctx.sample(sample);
+}
+
+} // namespace
+
 // Child entry: `c11 --coldstart=<scenario>` (spawned by run_mode_cold). Runs before anything else of the harness.
 void vh_init(const vh::Opts& o, vh::Ctx&) {
   auto it = o.kv.find("coldstart");
@@ -2037,6 +2631,62 @@ rc::Gen<vh::Case> vh_gen(const vh::Opts& o) {
   using namespace rc;
   long force_mode = o.geti("mode", -1), force_threads = o.geti("threads", -1), max_threads = o.geti("max-threads", 16);
   long cold_pct = force_mode == M_COLD ? 100 : force_mode >= 0 ? 0 : o.geti("cold-pct", 8);
+  long snap_pct = force_mode == M_SNAP ? 100 : force_mode >= 0 ? 0 : o.geti("snap-pct", 8);
+  // statistics snapshots: W workers with grouped or free alloc/release scripts, 1..4 observers
+  auto snapGen = gen::exec([=]() -> vh::Case {
+    auto pct = [](int p) { return *vh::irange<int>(0, 99) >= 100 - p; };
+    int w = *vh::irange<int>(0, 99);
+    int W = w < 6 ? 1 : w < 30 ? *vh::irange<int>(2, 3) : w < 72 ? *vh::irange<int>(4, 6) : *vh::irange<int>(7, 12);
+    if (force_threads >= 2) W = int(force_threads) - 1;
+    W = int(std::min<long>(W, std::max<long>(1, max_threads - 1)));
+    int ob = *vh::irange<int>(0, 99);
+    int OBS = ob < 55 ? 1 : ob < 85 ? 2 : *vh::irange<int>(3, 4);
+    int64_t opt = 0;
+    if (pct(12)) opt |= O_DUAL;
+    if (pct(50)) opt |= O_MULTI;
+    bool fill = pct(20);
+    if (fill) opt |= O_FILL;
+    if (pct(25)) opt |= O_IMMEDIATE;
+    if (pct(fill ? 50 : 5)) opt |= O_CUSTOM;
+    if (pct(65)) opt |= O_NOPAD;
+    int b = *vh::irange<int>(0, 99);
+    int64_t bsel = b < 60 ? 0 : b < 80 ? 1 : b < 92 ? 2 : 3;
+    int g = *vh::irange<int>(0, 99);
+    int64_t gsel = g < 50 ? 0 : g < 65 ? 1 : g < 85 ? 2 : 3;
+    int r = *vh::irange<int>(0, 99);
+    int rounds = r < 25 ? *vh::irange<int>(5, 30) : r < 80 ? *vh::irange<int>(31, 120) : *vh::irange<int>(121, 300);
+    if ((opt & O_IMMEDIATE) && (opt & (O_DUAL | O_FILL))) rounds = std::min(rounds, 60);   // a block is mapped (and filled) again and again
+    vh::Case c;
+    size_t longest = 1;
+    for (int t = 0; t < W; t++) {
+      size_t before = c.ops.size();
+      if (pct(65)) {
+        // matched groups: a few allocations, then everything is released again
+        int groups = *vh::irange<int>(1, 3);
+        for (int k = 0; k < groups; k++) {
+          int na = *vh::irange<int>(1, 4);
+          for (int i = 0; i < na; i++) c.ops.push_back(vh::Op{t, K_ALLOC, *vh::irange<int>(0, 5)});
+          if (pct(20)) c.ops.push_back(vh::Op{t, K_QUERY, *vh::irange<int>(0, 5)});
+          if (pct(10)) c.ops.push_back(vh::Op{t, K_STATS, 0});
+          if (pct(6)) c.ops.push_back(vh::Op{t, K_YIELD, *vh::irange<int>(0, 2)});
+          if (pct(50)) c.ops.push_back(vh::Op{t, K_SHRINK, *vh::irange<int>(0, 1)});
+          else for (int i = 0; i < na; i++) c.ops.push_back(vh::Op{t, K_RELEASE, *vh::irange<int>(0, 5)});
+        }
+      } else {
+        int len = *vh::irange<int>(3, 14);
+        for (int i = 0; i < len; i++) {
+          int sel = *vh::irange<int>(0, 99);
+          int kind = sel < 42 ? K_ALLOC : sel < 78 ? K_RELEASE : sel < 86 ? K_QUERY : sel < 91 ? K_STATS : sel < 94 ? K_YIELD : K_SHRINK;
+          c.ops.push_back(vh::Op{t, kind, *vh::irange<int>(0, 5)});
+        }
+      }
+      longest = std::max(longest, c.ops.size() - before);
+    }
+    // the observers make about as many calls as a worker (half to twice as many), so that both loops run side by side
+    int64_t iters = std::min<int64_t>(kSnapMaxIters, std::max<int64_t>(50, int64_t(rounds) * int64_t(longest) * *vh::irange<int>(50, 200) / 100));
+    c.cfg = {M_SNAP, W, opt, bsel, gsel, OBS, rounds, iters, *vh::irange<int>(0, 7), *vh::irange<int>(0, 63)};
+    return c;
+  });
   // cold start: every thread gets one first action (a quarter of the threads a follow-up operation as well)
   auto coldGen = gen::exec([=]() -> vh::Case {
     int t = *vh::irange<int>(0, 99);
@@ -2063,7 +2713,7 @@ rc::Gen<vh::Case> vh_gen(const vh::Opts& o) {
     auto pct = [](int p) { return *vh::irange<int>(0, 99) >= 100 - p; };
     int m = *vh::irange<int>(0, 99);
     int64_t mode = m < 55 ? M_ALLOC : m < 78 ? M_RUNTIME : M_CODEGEN;
-    if (force_mode >= 0) mode = force_mode % M_COUNT;
+    if (force_mode >= 0 && force_mode < M_COUNT) mode = force_mode;
     int t = *vh::irange<int>(0, 99);
     int64_t n = t < 18 ? 2 : t < 42 ? *vh::irange<int>(3, 4) : t < 72 ? *vh::irange<int>(5, 8) : *vh::irange<int>(9, 16);
     if (force_threads >= 2) n = force_threads;
@@ -2127,9 +2777,10 @@ rc::Gen<vh::Case> vh_gen(const vh::Opts& o) {
     return gen::map(opsGen, [cfg](std::vector<vh::Op> ops) {
       vh::Case c; c.cfg = cfg; c.ops = std::move(ops); return c; });
   });
-  if (cold_pct <= 0) return warmGen;
   if (cold_pct >= 100) return coldGen;
-  return gen::mapcat(vh::irange<int>(0, 99), [=](int r) { return r >= 100 - int(cold_pct) ? coldGen : warmGen; });
+  if (snap_pct >= 100) return snapGen;
+  if (cold_pct <= 0 && snap_pct <= 0) return warmGen;
+  return gen::mapcat(vh::irange<int>(0, 99), [=](int r) { return r >= 100 - int(cold_pct) ? coldGen : r < int(snap_pct) ? snapGen : warmGen; });
 }
 
 // Deterministic sweep of cold-start cases run before the generated ones: thread counts x (every operation as the common first
@@ -2143,11 +2794,39 @@ bool vh_enum(const vh::Opts& o, uint64_t k, vh::Case& out) {
   constexpr uint64_t kPerThreads = C_COUNT + 7 + 3;
   constexpr uint64_t kSweep = 7 * kPerThreads;
   long force_mode = o.geti("mode", -1);
-  if (force_mode >= 0 && force_mode != M_COLD) return false;
-  uint64_t reps = uint64_t(std::max(0L, o.geti("cold-sweep", o.is_thorough() ? 6 : 1)));
+  uint64_t reps = force_mode >= 0 && force_mode != M_COLD ? 0 : uint64_t(std::max(0L, o.geti("cold-sweep", o.is_thorough() ? 6 : 1)));
+  uint64_t sreps = force_mode >= 0 && force_mode != M_SNAP ? 0 : uint64_t(std::max(0L, o.geti("snap-sweep", o.is_thorough() ? 6 : 1)));
   uint64_t workers = uint64_t(std::max(1, o.workers));
   uint64_t idx = k * workers + uint64_t(std::max(0, o.worker)) % workers;
-  if (idx >= reps * kSweep) return false;
+  if (idx >= reps * kSweep) {
+    // Deterministic sweep of statistics-snapshot cases: worker counts x allocator configurations, the script of every worker is
+    // "alloc one span of every size class, release them" (matched groups: the reachable set is small, a torn object stands out).
+    static const int kW[] = {1, 2, 3, 4, 6, 8, 12};
+    //                         options (1 dual, 2 multi, 4 fill, 8 immediate, 64 no padding), granularity_sel, size_table, pinned
+    static const int kCfg[][4] = {{64, 0, 0, 0}, {0, 0, 1, 1}, {64 | 2, 0, 1, 0}, {64 | 2, 0, 0, 2}, {2, 2, 2, 5}, {64 | 8, 1, 4, 0}, {64 | 2 | 8, 0, 3, 1}, {64 | 2 | 1, 3, 6, 0}, {64, 0, 5, 3}, {2 | 8 | 4, 0, 0, 4}};
+    constexpr uint64_t kSnapSweep = 7 * 10;
+    uint64_t sidx = idx - reps * kSweep;
+    if (sidx >= sreps * kSnapSweep) return false;
+    uint64_t rep = sidx / kSnapSweep, j = sidx % kSnapSweep;
+    int W = kW[j / 10];
+    const int* cfg = kCfg[j % 10];
+    uint64_t s = (rep + 1) * 7000003 + j;
+    int rounds = (cfg[0] & 8) && (cfg[0] & (1 | 4)) ? 50 : 120;
+    int OBS = 1 + int(mix(s) % 3);
+    out = vh::Case();
+    size_t len = 0;
+    for (int t = 0; t < W; t++) {
+      size_t before = out.ops.size();
+      bool group = mix(s) & 1;
+      for (int i = 0; i < 3; i++) out.ops.push_back(vh::Op{t, K_ALLOC, (i + t) % 3});
+      if (mix(s) % 4 == 0) out.ops.push_back(vh::Op{t, K_QUERY, int64_t(mix(s) % 3)});
+      if (group) out.ops.push_back(vh::Op{t, K_SHRINK, int64_t(mix(s) & 1)});
+      else for (int i = 0; i < 3; i++) out.ops.push_back(vh::Op{t, K_RELEASE, int64_t(mix(s) % 3)});
+      len = std::max(len, out.ops.size() - before);
+    }
+    out.cfg = {M_SNAP, W, cfg[0], int64_t(rep % 4), cfg[1], OBS, rounds, int64_t(rounds) * int64_t(len), cfg[2], cfg[3] | int64_t((mix(s) % 7) << 3)};
+    return true;
+  }
   uint64_t rep = idx / kSweep, j = idx % kSweep;
   int n = kThreads[j / kPerThreads];
   uint64_t v = j % kPerThreads;
@@ -2170,6 +2849,7 @@ bool vh_enum(const vh::Opts& o, uint64_t k, vh::Case& out) {
 static void run_once(const vh::Case& c, vh::Ctx& ctx) {
   if (is_cold_case(c)) { run_mode_cold(c, ctx); return; }   // a new cfg value: every older case decodes as before
   host_init();
+  if (is_snap_case(c)) { run_mode_snap(c, ctx); return; }   // likewise (exactly 4)
   int mode = int((c.cfg.empty() ? 0 : u(c.cfg[0])) % M_COUNT);
   if (mode == M_ALLOC) run_mode_alloc(c, ctx);
   else if (mode == M_RUNTIME) run_mode_runtime(c, ctx);
